@@ -180,6 +180,9 @@ func (pr *PolicyResolver) OnPolicyMatchStopped(policyKey model.PolicyKey, endpoi
 	// This policy is not active anymore, we no longer need to track it for sorting.
 	if !pr.policyIDToEndpointIDs.ContainsKey(policyKey) {
 		pr.policySorter.UpdatePolicy(policyKey, nil)
+		// Nor should the next Flush add it: updates to an inactive policy are not
+		// forwarded to the sorter, so an entry added now would go stale.
+		pr.pendingPolicyUpdates.Discard(policyKey)
 	}
 
 	pr.dirtyEndpoints.Add(endpointKey)
